@@ -352,8 +352,16 @@ func (w *objectWalk) processCommitTrees(lc *object.Commit) error {
 		return fmt.Errorf("getting tree for %s: %w", lc.Hash, err)
 	}
 
+	// A shallow commit has no parents as far as the receiver is concerned:
+	// even if a parent happens to be stored here, its trees must not be
+	// used to prune the objects of this commit.
+	numParents := lc.NumParents()
+	if _, shallow := w.shallows[lc.Hash]; shallow {
+		numParents = 0
+	}
+
 	var oldTrees []*object.Tree
-	for i := 0; i < lc.NumParents(); i++ {
+	for i := 0; i < numParents; i++ {
 		parent, err := lc.Parent(i)
 		if err != nil {
 			if errors.Is(err, plumbing.ErrObjectNotFound) {
